@@ -66,6 +66,13 @@ def scenarios(tier, seed):
                     continue
                 add(family=f"nary/{op}", op=op, scopes=[list(s) for s in combo], card=card)
         add(family="nary/factor_divide", op="factor_divide", scopes=[["x", "y"], ["y"]], card=card)
+    # wide factors (9-10 binary variables): axis bookkeeping beyond the sizes where small-integer sets happen to iterate in order.  Entries are the
+    # linear form c + s * (flat index) with symbolic s > 0 and c, so maxima and sums are symbolic yet every comparison has a known sign.
+    for nv in (9, 10):
+        keeps = [[1, 8], [8, 1, 3], [0, nv - 1], [nv - 1], [2, 8, nv - 1, 0], [5], [nv - 2, nv - 1]]
+        for ki, keep in enumerate(keeps if tier == "thorough" else keeps[: 4 + (nv == 9)]):
+            for op in ["maximize", "marginalize", "reduce"]:
+                add(family=f"wide/{op}", op=op, nv=nv, keep=keep, inplace=(k % 2 == 0), states="default", hashseed=k % 2, budget_s=120)
     return out
 
 
@@ -157,11 +164,72 @@ def odiv(M, a, b):
     return r
 
 
+def run_wide(desc, M):
+    from pgmpy.factors.discrete import DiscreteFactor
+    nv, keep, op = desc["nv"], list(desc["keep"]), desc["op"]
+    names = [f"v{i}" for i in range(nv)]
+    keep = list(dict.fromkeys(keep))
+    M.declare(["s", "c"])
+    unit = M.sym("s", pos=True)
+    # a_i = s * 2^(nv-1-i): the entry at flat index idx is c + s * idx, so every comparison inside max has a known sign (no forks) while any
+    # axis mix-up still changes the symbolic value
+    a = [unit * (2 ** (nv - 1 - i)) for i in range(nv)]
+    c = M.sym("c")
+    vals = []
+    for idx in range(2 ** nv):
+        t = c
+        for i in range(nv):
+            if idx >> (nv - 1 - i) & 1:
+                t = t + a[i]
+        vals.append(M.impl(t))
+    phi = DiscreteFactor(names, [2] * nv, vals)
+    rem = [i for i in range(nv) if i not in keep]
+    # removed variables listed in a scrambled order
+    rem_listed = rem[1::2] + rem[0::2][::-1]
+    s0 = snap(phi) if not desc["inplace"] else None
+    if op == "reduce":
+        states = {i: (i * 7 + 3) % 2 for i in rem}
+        res = phi.reduce([(names[i], states[i]) for i in rem_listed], inplace=desc["inplace"])
+    else:
+        res = getattr(phi, op)([names[i] for i in rem_listed], inplace=desc["inplace"])
+    if desc["inplace"]:
+        res = phi
+    else:
+        same_snap(M, phi, s0, f"wide {op}: operand untouched")
+    if not M.check(set(res.variables) == {names[i] for i in keep} and len(res.variables) == len(keep), f"wide {op}: scope", detail=str(res.variables)):
+        return
+    M.check([int(x) for x in res.cardinality] == [2] * len(keep) and tuple(np.shape(res.values)) == (2,) * len(keep), f"wide {op}: cardinality and shape",
+            detail=f"{res.cardinality} {np.shape(res.values)}")
+    for bits in itertools.product(range(2), repeat=len(keep)):
+        asg = dict(zip(keep, bits))
+        base = c
+        for i, b in asg.items():
+            if b:
+                base = base + a[i]
+        if op == "maximize":
+            want = base
+            for i in rem:
+                want = want + a[i]
+        elif op == "marginalize":
+            want = base * (2 ** len(rem))
+            for i in rem:
+                want = want + a[i] * (2 ** (len(rem) - 1))
+        else:
+            want = base
+            for i in rem:
+                if states[i]:
+                    want = want + a[i]
+        got = res.values[tuple(asg[int(v[1:])] for v in res.variables)]
+        M.eq(got, want, f"wide {op}: value addressed by variable name", detail=f"{nv} variables, kept {[names[i] for i in keep]}, at {asg}")
+
+
 def run(desc, M):
     from pgmpy.factors import factor_divide, factor_product, factor_sum_product
     from pgmpy.factors.discrete import DiscreteFactor
     op = desc["op"]
     fam = desc["family"].split("/")[0]
+    if fam == "wide":
+        return run_wide(desc, M)
     card = desc["card"]
     if fam == "binary":
         M.declare(F.names(desc, "f", desc["sf"]) + F.names(desc, "g", desc["sg"]))
